@@ -18,6 +18,9 @@ CLAIMED = {
  "C15": dict(cat="model_checking", technique="symbolic fixpoint of reachable (DFA state, depth class) configurations + one-step ambiguity query, both by CrossHair on the real Pattern.consume/predicates; replay as source text",
              text="Complete exploration of a finite abstract space with the concrete dimensions (token text, nesting depth) left to the solver: every reachable configuration of every captured automaton x every token kind, with unbounded token value and depth. Not bounded in depth or token text; bounded only by Pygments' type families.",
              ref="DESIGN.md 3/C15"),
+ "C19": dict(cat="other", technique="AST->QF_BVFP translation of quality_profile_percentage solved by z3 and cvc5 (exact, bounded totals) + real/int relaxation (unbounded totals) + CrossHair on the verdict branches",
+             text="Each clause of the statement is an unsat query over ALL profiles with total <= 2^B (B=6 quick, 10 thorough) against the bit-precise float semantics of the function's current AST, cross-checked by two solvers and by concrete evaluation on the repository's test inputs; the verdict rule is decided for all integer percentage tuples.",
+             ref="DESIGN.md 3/C19"),
 }
 NA = {}
 def main():
